@@ -8,7 +8,7 @@
    [rfinal] / [rs_snapshot] model RollingSummary.                                                *)
 From Coq Require Import List NArith Bool.
 Import ListNotations.
-Require Import MV.C15.Model MV.C15.Spec MV.C15.Exec MV.C15.ProofsHist MV.C15.ProofsDist MV.C15.ExecProofs.
+Require Import MV.C15.Model MV.C15.Spec MV.C15.Exec MV.C15.ProofsHist MV.C15.ProofsDist MV.C15.ProofsRoll MV.C15.ProofsPrec MV.C15.ExecProofs.
 Open Scope N_scope.
 
 Theorem C15_bucket_counts : forall (O : FloatOps),
@@ -48,14 +48,19 @@ Theorem C15_batch_equals_single : forall (O : FloatOps),
   /\ h_count O (hfinal O h0 ops1) = h_count O (hfinal O h0 ops2).
 Proof. exact batch_equals_single. Qed.
 
-(* FULL STATEMENT AIMED AT:  forall c, gwf O c = true -> gspec_ok O c (grun_case O c) = true.
-   Proved for the histogram cases; for override and rolling-summary cases spec_ok is evaluated on
-   the implementation's output of every generated case, but not proved of the model for all cases. *)
-Theorem C15_spec_ok_on_model_partial : forall (O : FloatOps),
+(* the model's output satisfies the executable property for every well-formed case of the three
+   kinds (histogram: any; overrides: the code after the fix; rolling summary: n > 0, dur > 0) *)
+Theorem C15_spec_ok_on_model : forall (O : FloatOps),
   (forall a b c : F O, fle O a b = true -> fle O b c = true -> fle O a c = true) ->
   (forall a : F O, fsame O a a = true) ->
-  forall bounds ops, gspec_ok O (CHist O bounds ops) (grun_case O (CHist O bounds ops)) = true.
-Proof. exact spec_ok_on_model_hist. Qed.
+  forall c, gwf O c = true -> gspec_ok O c (grun_case O c) = true.
+Proof. exact spec_ok_on_model. Qed.
+
+Theorem C15_spec_ok_sound_dist : forall (O : FloatOps) fixed san global name ovs ty d,
+  gspec_ok O (CDist O fixed san global name ovs) (ODist O ty d) = true ->
+  optb_same O d (spec_choice O san global name ovs) = true
+  /\ (ty = true <-> d <> None).
+Proof. exact spec_ok_sound_dist. Qed.
 
 Theorem C15_spec_ok_sound_hist : forall (O : FloatOps) bounds done cs cnt sm,
   snap_ok O bounds done (cs, cnt, sm) = true ->
@@ -64,21 +69,31 @@ Theorem C15_spec_ok_sound_hist : forall (O : FloatOps) bounds done cs cnt sm,
   /\ (ascending O bounds = true -> cs = map (fun b => count_le O b (all_samples O done)) bounds).
 Proof. exact snap_ok_sound. Qed.
 
-(* FULL STATEMENT AIMED AT:  get_distribution (db_new true san global ovs) key = spec_choice san global name ovs
-   (least applying matcher in the order Full < Prefix < Suffix, then by pattern).  Proved: the
-   chosen bounds belong to a held override that matches and whose KIND is minimal among the held
-   overrides that match (Full before Prefix before Suffix); no match => global buckets, else summary.
-   Not proved: the order by pattern within one kind, and [matches] = [applies] of Spec.v. *)
-Theorem C15_override_precedence_partial : forall (O : FloatOps) fixed san global ovs name,
-  match get_distribution O (db_new O fixed san global ovs) name with
-  | Some b =>
-      (exists m, In (m, b) (held O fixed san ovs) /\ matches fixed m name = true /\
-                 forall x, In x (held O fixed san ovs) -> matches fixed (fst x) name = true ->
-                           mrank (fst m) <= mrank (fst (fst x)))
-      \/ ((forall x, In x (held O fixed san ovs) -> matches fixed (fst x) name = false) /\ global = Some b)
-  | None => (forall x, In x (held O fixed san ovs) -> matches fixed (fst x) name = false) /\ global = None
-  end.
-Proof. exact override_precedence. Qed.
+(* The model of DistributionBuilder (HashMap insert of sanitised matchers, sort by the derived Ord,
+   first match) equals the sort-free specification of Spec.v, for every set of overrides and name. *)
+Theorem C15_override_model_meets_spec : forall (O : FloatOps) san global name ovs,
+  get_distribution O (db_new O true san global ovs) (eff_key san name) = spec_choice O san global name ovs.
+Proof. exact model_meets_spec. Qed.
+
+(* Which override wins: if some override applies, the distribution is a histogram whose bounds are
+   those of the LAST override filed under the matcher that is least, in the derived Ord of Matcher
+   ([matcher_cmp]: Full < Prefix < Suffix, then the sanitised pattern in String order), among the
+   matchers of the applying overrides; if none applies, the global buckets, else a summary. *)
+Theorem C15_override_precedence : forall (O : FloatOps) san global name ovs,
+  let d := get_distribution O (db_new O true san global ovs) (eff_key san name) in
+  ((exists o, In o ovs /\ applies san (fst o) name = true) ->
+     exists o, In o ovs /\ applies san (fst o) name = true
+               /\ (forall o', In o' ovs -> applies san (fst o') name = true ->
+                     matcher_cmp (eff_matcher san (fst o)) (eff_matcher san (fst o')) <> Gt)
+               /\ d = last_bounds O san (eff_matcher san (fst o)) ovs
+               /\ d <> None)
+  /\ ((forall o, In o ovs -> applies san (fst o) name = false) -> d = global).
+Proof. exact override_precedence_full. Qed.
+
+(* Matcher::matches on the sanitised matcher and name is the declarative [applies] of Spec.v *)
+Theorem C15_matches_is_applies : forall san m name,
+  matches true (eff_matcher san m) (eff_key san name) = applies san m name.
+Proof. exact matches_is_applies. Qed.
 
 Theorem C15_type_histogram_iff_distribution_histogram : forall (O : FloatOps) (d : dbuilder O) name,
   get_distribution_type O d name = true <-> get_distribution O d name <> None.
@@ -92,11 +107,10 @@ Theorem C15_matcher_sound_full : forall fixed n,
   matches fixed (matcher_sanitized fixed (MFull, n)) (sanitize_name n) = true.
 Proof. exact full_sound. Qed.
 
-(* FULL STATEMENT AIMED AT: also for pre = [] (the suffix is the whole name; handled in the code by
-   the second disjunct of Matcher::matches, exercised by the correspondence runs, not proved). *)
-Theorem C15_matcher_sound_suffix_partial : forall pre p, pre <> [] ->
+(* raw pattern is a suffix of the raw name (possibly the whole name) => the sanitised matcher matches *)
+Theorem C15_matcher_sound_suffix : forall pre p,
   matches true (matcher_sanitized true (MSuffix, p)) (sanitize_name (pre ++ p)) = true.
-Proof. exact suffix_sound_proper. Qed.
+Proof. exact suffix_sound. Qed.
 
 Theorem C15_matcher_suffix_refuted_before_fix : exists pre p, pre <> [] /\
   matches false (matcher_sanitized false (MSuffix, p)) (sanitize_name (pre ++ p)) = false.
@@ -107,22 +121,55 @@ Theorem C15_suffix_override_refuted_before_fix :
                        /\ gspec_ok ZO c (grun_case ZO c) = false.
 Proof. exact suffix_refuted_before_fix. Qed.
 
-(* FULL STATEMENT AIMED AT (C15_window): for non-decreasing timestamps a snapshot contains no sample
-   older than now - n*dur and every sample at least as new as now - n*dur + dur, and truncate never
-   evicts an unexpired bucket.  Proved: the three facts below (count; which buckets a snapshot
-   merges; where a new bucket begins).  Not proved: the invariant tying each retained value to the
-   timestamp it was added with — that part is checked per case by spec_ok (window_ok). *)
+(* The window theorem.  For every history of adds with non-decreasing timestamps and every time
+   [now] not before the last add, the state reached from RollingSummary::new(n, dur):
+   - a snapshot holds only samples of the history that are finite and newer than now - n*dur;
+   - it holds every finite sample with timestamp >= now - n*dur + dur;
+   - as multisets: |must_hold| <= |snapshot| <= |may_hold|;
+   - count() is the number of samples ever added;
+   - at most n buckets, strictly descending by begin and at least dur apart. *)
+Theorem C15_window : forall (O : FloatOps) (n dur : N), 0 < n -> 0 < dur ->
+  forall (hist : list (N * F O)) (now : N),
+  nondecr O 0 hist -> last_time O 0 hist <= now ->
+  let r := radd_all O (rs_new O n dur) hist in
+  (forall v, In v (rs_snapshot O r now) ->
+     exists t, In (t, v) hist /\ fisinf O v = false /\ (dur * n <= now -> now - dur * n < t))
+  /\ (forall t v, In (t, v) hist -> fisinf O v = false -> now + dur <= t + dur * n -> In v (rs_snapshot O r now))
+  /\ (length (must_hold O dur (dur * n) now hist) <= length (rs_snapshot O r now))%nat
+  /\ (length (rs_snapshot O r now) <= length (may_hold O (dur * n) now hist))%nat
+  /\ r_count O r = N.of_nat (length hist)
+  /\ N.of_nat (length (r_buckets O r)) <= n
+  /\ descN dur (begins O (r_buckets O r)).
+Proof. exact window_theorem. Qed.
+
+(* truncate(max_buckets - 1) in add never removes a bucket that retain kept *)
+Theorem C15_window_truncate_never_evicts : forall (O : FloatOps) (n dur : N), 0 < n -> 0 < dur ->
+  forall (hist : list (N * F O)) (now : N) (v : F O),
+  nondecr O 0 hist -> last_time O 0 hist <= now ->
+  let r := radd_all O (rs_new O n dur) hist in
+  try_add O (r_dur O r) v now (r_buckets O r) = None ->
+  let kept := filter (unexpired O (r_maxdur O r) now) (r_buckets O r) in
+  firstn (N.to_nat (r_max O r - 1)) kept = kept.
+Proof. exact truncate_never_evicts. Qed.
+
+(* the invariant behind it: every bucket holds exactly the finite samples whose timestamp lies in
+   [begin, begin + dur), and every sample that must still be held lies in some bucket *)
+Theorem C15_window_invariant : forall (O : FloatOps) (n dur : N), 0 < n -> 0 < dur ->
+  forall l past la r, params_ok O n dur r -> WInv O n dur past la (r_buckets O r) -> nondecr O la l ->
+  params_ok O n dur (radd_all O r l) /\ WInv O n dur (past ++ l) (last_time O la l) (r_buckets O (radd_all O r l)).
+Proof. exact radd_all_inv. Qed.
+
 Theorem C15_window_count_counts_all : forall (O : FloatOps) ops r,
   r_count O (rfinal O r ops) = r_count O r + adds O ops.
 Proof. exact count_counts_all. Qed.
 
-Theorem C15_window_snapshot_merges_unexpired_partial : forall (O : FloatOps) (r : rsum O) now v,
+Theorem C15_window_snapshot_merges_unexpired : forall (O : FloatOps) (r : rsum O) now v,
   In v (rs_snapshot O r now) <->
   exists b, In b (r_buckets O r) /\ In v (rb_vals O b) /\
             (r_maxdur O r <= now -> now - r_maxdur O r < rb_begin O b).
 Proof. exact snapshot_merges_unexpired. Qed.
 
-Theorem C15_window_new_bucket_covers_sample_partial : forall dur reftime now, 0 < dur -> reftime <= now ->
+Theorem C15_window_new_bucket_covers_sample : forall dur reftime now, 0 < dur -> reftime <= now ->
   next_begin dur reftime now <= now /\ now < next_begin dur reftime now + dur.
 Proof. exact next_begin_covers. Qed.
 
